@@ -25,7 +25,7 @@ NT_FLOOR = 0.1
 @st.composite
 def plan_st(draw, tier):
     cfg = draw(gen.config_st(arm_kinds=("int", "str", "float", "mix"), max_arms=4, with_binarizer=True, scale_ok=True,
-                             n_jobs_choices=(1, 1, 1, 1, 1, 2), defaults_ok=True))
+                             n_jobs_choices=(1, 1, 1, 1, 1, 2), defaults_ok=True, metrics=gen.SAFE_METRICS))
     h = gen.History(draw, cfg, max_rows=8, query_rows=(1, 2, 3, 6), series_queries=True)
     h.fit() if draw(st.integers(0, 3)) else h.partial_fit()
     for _ in range(draw(st.integers(0, 5))):
@@ -52,7 +52,8 @@ def evaluate(plan, ctx):
     t = copy.deepcopy(b)
     twin.must_succeed(b, plan["burst"], "burst")
     mode = streams.align(b, t)
-    twin.run_both(b, t, plan["cont"], "queried_vs_unqueried", "queried bandit", "unqueried copy")
+    twin.run_both(b, t, [["policies"]] + plan["cont"] + [["policies"]], "queried_vs_unqueried", "queried bandit",
+                  "unqueried copy")
     big = any(op[1] is not None and len(op[1]) >= 2 for op in plan["burst"])
     trained = False
     tq = False
